@@ -10,7 +10,7 @@ import fcntl, hashlib, json, os, re, shutil, subprocess, sys, time, glob, random
 
 VERIF = os.path.dirname(os.path.dirname(os.path.abspath(__file__)))
 REPO = os.environ.get("VERIF_REPO", "/repo")
-BUILD = os.path.join(VERIF, "build")
+BUILD = os.environ.get("VERIF_BUILD", os.path.join(VERIF, "build"))
 COQ = os.path.join(VERIF, "coq")
 GUARD = "LIBVNC_LIBVNCSERVER_VERIF"
 NCPU = os.cpu_count() or 4
